@@ -34,7 +34,7 @@ func atPoint(point string, occ int, action func()) func() bool {
 func (s *scen) setRaw(key string, body []byte, flag uint32) {
 	ki := NewKeyInfoFromBytes([]byte(key), 0, false)
 	p := &Payload{Meta: Meta{Flag: flag, TS: 1}}
-	p.Body = append([]byte{}, body...)
+	allocBody(p, body)
 	cmem.DBRL.SetData.AddSizeAndCount(p.CArray.Cap)
 	err := s.st.Set(ki, p)
 	vrt.Assert("set-no-error", err == nil)
@@ -268,7 +268,7 @@ func VH_C04_T1_two_writers() {
 				s.st.Set(ki, GetPayloadForDelete())
 			} else {
 				p := &Payload{Meta: Meta{TS: 1}}
-				p.Body = append([]byte{}, bBody...)
+				allocBody(p, bBody)
 				cmem.DBRL.SetData.AddSizeAndCount(p.CArray.Cap)
 				s.st.Set(ki, p)
 			}
